@@ -137,6 +137,8 @@ def run(ctx, res):
         res.touched(prog.func(fn))
     run_storage_rules(prog, res, RULES, "FD/FAIL-SIM")
     n = loop_progress(prog, res, "file_write")
+    from ..filewrite import rule_file_write
+    res.guard(rule_file_write, prog, res)
     if n < 1:
         raise AnalysisBroken("file_write no longer contains a retry loop")
     rule_x_barrier(prog, res, tus=["storage/tiff.cpp", "storage/side-by-side-tiff.cpp"])
